@@ -220,7 +220,7 @@ Fixpoint k_close (a b : val) {struct a} : bool :=
   | VL la, VL lb =>
       any2 (k_close) la lb
   | VL _, _ | _, VL _ => false
-  | _, _ => is_num a && is_num b && negb (num_eqb a b) && isclose a b
+  | _, _ => is_num a && is_num b && negb (num_eqb a b) && isclose_gen true a b     (* integers are never "close" *)
   end.
 
 Fixpoint match_kinds_ok (a b : val) {struct a} : bool :=
@@ -229,7 +229,8 @@ Fixpoint match_kinds_ok (a b : val) {struct a} : bool :=
       all2 (match_kinds_ok) la lb
   | VL _, VS _ | VS _, VL _ => false      (* a list of characters against a string: not settled by the reference *)
   | VL _, _ | _, VL _ => true
-  | _, _ => same_kind a b
+  | VC _, VS _ | VS _, VC _ => false     (* a character against a one-character string: klongpy calls them equal *)
+  | _, _ => true
   end.
 
 Fixpoint s_positions (i : Z) (p : val -> bool) (l : list val) : list val :=
@@ -269,7 +270,7 @@ Definition scdom_of (f : string) : val -> val -> bool :=
   if (fis f "eval_dyad_remainder") || (fis f "eval_dyad_integer_divide") then both_int_nz else
   if (fis f "eval_dyad_less") || (fis f "eval_dyad_more") || (fis f "eval_dyad_equal") then same_kind else
   if fis f "eval_dyad_power" then
-    (fun a b => match a, b with VI x, VI y => (0 <=? y) && (Z.abs (x ^ y) <? 2 ^ 53) | _, _ => false end) else
+    (fun a b => match a, b with VI x, VI y => (0 <=? y) && (y <? 64) && (Z.abs (x ^ y) <? 2 ^ 53) | _, _ => false end) else
   both_num.
 
 Definition via_vec2 (f : string) : bool :=
@@ -463,15 +464,15 @@ Definition dom_dyad (f : string) (a b : val) : bool :=
   if fis f "eval_dyad_find" then
     match a, b with
     | VS _, VC _ | VS _, VS _ => true
-    | VL l, _ => forallb (fun x => (match_kinds_ok x b || negb (is_strlike x && is_strlike b)) && negb (k_close x b)) l
+    | VL l, _ => negb (match b with VU => true | _ => false end) &&
+                 forallb (fun x => match_kinds_ok x b && negb (k_close x b)) l
     | _, _ => false
     end else
   if fis f "eval_dyad_match" then match_kinds_ok a b && negb (k_close a b) else
   if fis f "eval_dyad_index_in_depth" then
     (match a, b with
      | VL l, VI i => (npdepth a =? 1)%nat && (0 <=? i) && (i <? zlen l)
-     | VL l, VL (x :: r) => is_rect a && (npdepth b =? 1)%nat && forallb is_int (x :: r) &&
-                            (List.length (x :: r) =? npdepth a)%nat && path_ok a (zints b)
+     | VL l, VL (x :: r) => (npdepth b =? 1)%nat && forallb is_int (x :: r) && path_ok a (zints b)
      | _, _ => false end) else
   if fis f "eval_dyad_amend_in_depth" then
     (match a, b with
@@ -480,7 +481,7 @@ Definition dom_dyad (f : string) (a b : val) : bool :=
      | _, _ => false end) else
   if fis f "eval_dyad_amend" then
     (match a, b with
-     | VL l, VL (v :: x :: r) => (npdepth a <=? 1)%nat && (npdepth b =? 1)%nat &&
+     | VL l, VL (v :: x :: r) => (npdepth a <=? 1)%nat && negb (ndim_gt1 a) && (npdepth b =? 1)%nat &&
                                  forallb (fun y => match y with VI i => (0 <=? i) && (i <? zlen l) | _ => false end) (x :: r)
      | VS s, VL (VC _ :: x :: r) => (npdepth b =? 1)%nat &&
                                  forallb (fun y => match y with VI i => (0 <=? i) && (i <? zlen s) | _ => false end) (x :: r)
@@ -548,11 +549,9 @@ Definition k_dyad (f : string) (a b : val) : string :=
   if fis f "eval_dyad_match" then "" else
   if (fis f "eval_dyad_amend") || (fis f "eval_dyad_amend_in_depth") then
     (* numpy.put / item assignment cast the new value to the dtype of a numeric array *)
-    (match b with
-     | VL (v :: _) => if is_rect a && negb (match v, has_real a with VI _, false | VR _, true => true | _, _ => false end)
-                         && negb ((fis f "eval_dyad_amend_in_depth") && is_strlike v)
-                      then "amend-cast" else if negb (res_normal (s_dyad f a b)) then "homogenise" else ""
-     | _ => "" end) else
+    (* an integer stored into a real array becomes real *)
+    (if negb (res_normal (s_dyad f a b)) || (is_rect a && has_real a && match b with VL (VI _ :: _) => true | _ => false end)
+     then "homogenise" else "") else
   if fis f "eval_dyad_find" then
     (match a, b with
      | VL l, VL _ => ""
@@ -685,7 +684,7 @@ Definition dom_monad (f : string) (a : val) : bool :=
   if fis f "eval_monad_groupby" then
     (match a with
      | VS _ => true
-     | VL l => forallb (fun x => forallb (fun y => (match_kinds_ok x y || negb (is_strlike x && is_strlike y)) && negb (k_close x y)) l) l
+     | VL l => forallb (fun x => forallb (fun y => match_kinds_ok x y && negb (k_close x y)) l) l
      | _ => false end) else
   if fis f "eval_monad_range" then (match a with VS _ | VL _ => true | _ => false end) else
   false.
